@@ -46,6 +46,10 @@ Sensitivity (quick tier, seed 1, scratch copy of /repo/tornado):
      independent mutation testing, previously missed: no generated URL had a query)   caught at every seed by the finite
      "grid" part (first case whose URL carries `?a=b&c=d%20e`) -> C48.signature_mismatch, and by the Hypothesis part
      (query_mode all/some/plus/empty, fragments, trailing '#').
+  M10 HMAC object memoised per key with lru_cache and updated in place, so it accumulates the base strings of earlier
+     signatures (round-9 "state carried over" mutant)   caught at seeds 1,2,3: by the committed replays (second replay
+     with the same key), the grid (one key pair for 2700 requests) and the "sequence" part (2-4 different requests,
+     both functions, signed with one key pair, first request repeated at the end) -> C48.signature_mismatch.
   A mutant is also reported when the input carries one of the four known-deviation features, because the
   bytes are then no longer reproduced by "RFC + exactly those deviations" (seen with M1, M2, M4 on the replays).
   Combined repair proposed in findings_inbox/C48-rfc5849-deviations.md: 3006/3006 cases match the RFC, 0 exclusions.
@@ -373,10 +377,31 @@ def grid_cases():
                                        "query_mode": query_mode, "fragment": fragment, "userinfo": userinfo}
 
 
-PARTS = {"main": run_case, "grid": run_case}
+# --------------------------------------------------------------------------- reuse of one key pair
+# An application signs all of its requests with a handful of (consumer secret, token secret) pairs.  A case of this
+# part is a history: 2-4 DIFFERENT requests signed one after the other with the same pair (both functions mixed,
+# one request repeated verbatim at the end).  Each signature is judged on its own against the reference.
+def run_sequence(ctx, case):
+    ctx.label("same_key_sequence")
+    reqs = list(case["requests"])
+    reqs.append(reqs[0])  # the first request once more, after the others
+    for i, req in enumerate(reqs):
+        run_case(ctx, dict(req, consumer_secret=case["consumer_secret"], token_secret=case["token_secret"]))
+        if i:
+            ctx.label("signature_after_earlier_one_with_same_key")
+
+
+sequence_s = st.fixed_dictionaries({
+    "consumer_secret": secret_s,
+    "token_secret": st.one_of(st.none(), secret_s, secret_s),
+    "requests": st.lists(case_s, min_size=2, max_size=4),
+})
+
+PARTS = {"main": run_case, "grid": run_case, "sequence": run_sequence}
 
 
 def main(ctx):
     ctx.run_replays(PARTS)
     ctx.enumerate(grid_cases(), run_case, name="grid")
-    ctx.explore(case_s, run_case, ctx.n(3000, 300000), name="main")
+    ctx.explore(sequence_s, run_sequence, ctx.n(300, 30000), name="sequence")
+    ctx.explore(case_s, run_case, ctx.n(2500, 270000), name="main")
